@@ -20,6 +20,8 @@ from .props import PROPS
 
 VERIF = os.path.dirname(os.path.dirname(os.path.abspath(__file__)))
 REPO = os.environ.get('VERIF_REPO', '/repo')
+# build output, replay files and evidence go under VERIF unless a scratch root is given (self-tests on mutated copies)
+SCRATCH = os.environ.get('VERIF_SCRATCH') or VERIF
 
 
 def sanitize(s):
@@ -113,7 +115,7 @@ def classify(prop, failures, R, info):
 
 
 def write_replay(prop, f, R, info, res, extra=None):
-    d = os.path.join(VERIF, 'out', 'replay', prop)
+    d = os.path.join(SCRATCH, 'out', 'replay', prop)
     os.makedirs(d, exist_ok=True)
     path = os.path.join(d, sanitize(f.oid) + '.json')
     ob = R.get(f.oid) or info.obligations.get(f.oid.split('/call:')[-1], {}) if f.oid else {}
@@ -160,7 +162,7 @@ def main(argv=None):
         from . import replay
         return replay.run(prop, args.replay)
     t0 = time.time()
-    workdir = os.path.join(VERIF, 'build', prop)
+    workdir = os.path.join(SCRATCH, 'build', prop)
     evidence = {
         'property_id': prop, 'tier': tier, 'seed': seed, 'level': 'proof',
         'coverage': {'obligations': 0, 'discharged': 0, 'checker_cmd': '', 'trusted_base': [], 'samples': []},
@@ -171,8 +173,8 @@ def main(argv=None):
         evidence['wall_s'] = round(time.time() - t0, 2)
         if note:
             evidence['coverage']['explanation'] = note
-        os.makedirs(os.path.join(VERIF, 'evidence'), exist_ok=True)
-        json.dump(evidence, open(os.path.join(VERIF, 'evidence', prop + '.json'), 'w', encoding='utf-8'), indent=1, ensure_ascii=False)
+        os.makedirs(os.path.join(SCRATCH, 'evidence'), exist_ok=True)
+        json.dump(evidence, open(os.path.join(SCRATCH, 'evidence', prop + '.json'), 'w', encoding='utf-8'), indent=1, ensure_ascii=False)
         return code
 
     try:
@@ -251,8 +253,12 @@ def main(argv=None):
     n_ob = len(R)
     n_failed = len(set(f.oid for f in mine if f.oid in R)) + len(set(f.oid for f in mine if f.oid not in R))
     cov = evidence['coverage']
-    cov['obligations'] = n_ob + len(kani_cov)
-    cov['discharged'] = max(0, n_ob - len(set(f.oid for f in mine if f.oid in R))) + sum(1 for v in kani_cov.values() if v.get('ok'))
+    # cells listed as open known findings are reported, not claimed: they are excluded from the obligation count of the proof claim
+    known_ids = set(k['obligation'] for k in known_hit)
+    failed_in_R = set(f.oid for f in mine if f.oid in R)
+    cov['obligations'] = n_ob - len(known_ids & failed_in_R) + len(kani_cov)
+    cov['discharged'] = max(0, n_ob - len(failed_in_R)) + sum(1 for v in kani_cov.values() if v.get('ok'))
+    cov['excluded_known_findings'] = sorted(known_ids)
     cov['by_back_end'] = {
         'verus': {'obligations': n_ob, 'failed': sorted(set(f.oid for f in mine)), 'verified_items_total': res.verified, 'errors_total': res.errors,
                   'solver_ms': res.times.get('smt', {}).get('total'), 'wall_ms': res.times.get('total'), 'version': res.version},
@@ -305,16 +311,30 @@ def main(argv=None):
 
     if violations:
         from . import cex
-        for f in violations:
+        real = []
+        for i, f in enumerate(violations):
             extra = None
-            try:
-                extra = cex.find(prop, f, R, info)
-            except Exception as e:  # counterexample search is best effort
-                extra = {'counterexample': None, 'counterexample_search': 'failed: %r' % (e,)}
+            if i < 12:
+                try:
+                    extra = cex.find(prop, f, R, info)
+                except Exception as e:  # counterexample search is best effort
+                    extra = {'counterexample': None, 'counterexample_search': 'failed: %r' % (e,)}
+            else:
+                extra = {'counterexample': None, 'counterexample_search': 'skipped: more than 12 violations in this run'}
+            if extra and extra.get('spurious'):
+                # the cell's whole finite domain was executed on the real code and satisfies the formula
+                undecided_reasons.append('verifier rejects %s but exhaustive native execution of that cell finds no failing input (solver incompleteness)' % f.oid)
+                continue
             path = write_replay(prop, f, R, info, res, extra)
             tail = '' if (extra and extra.get('counterexample')) else ' no-failing-input-found'
+            real.append((f, path, tail, extra))
+        for f, path, tail, extra in real:
+            if extra and extra.get('counterexample') and extra['counterexample'].get('description'):
+                print('  counterexample: %s' % extra['counterexample']['description'][:400])
             print('VIOLATION property=%s replay=%s obligation=%s%s' % (prop, path, f.oid, tail))
-        return finish(1)
+        evidence['violations'] = len(real)
+        if real:
+            return finish(1)
 
     if undecided or undecided_reasons:
         for f in undecided[:5]:
